@@ -103,6 +103,13 @@ def vacuity(cases, strict):
                     n['%s:%s-tab:%s' % (t, parts[0], parts[2])] += 1
                     n['%s:%s-tab:%s' % (t, parts[0], parts[3])] += 1
         if t == 'skool':
+            # <wrapalign> items / rows that sna2skool wrapped, aligned with a text 2+ blanks behind its '{' / '|'
+            for k, v in c.get('wa', {}).items():
+                n['skool:wrapalign-' + k] += v
+            if c.get('wa', {}).get('multi'):
+                widths['wamulti'].add(c['W'])
+            if c.get('wa', {}).get('near'):
+                widths['wanear'].add(c['W'])
             # the closing brace sna2skool adds: glued to a last line that then ends exactly at the width, or
             # pushed to a row of its own because the last line is full
             o = c['out']
@@ -155,14 +162,17 @@ def vacuity(cases, strict):
     need += ['%s:%s-table-%s' % (t, p, f) for t in ('asm', 'html') for p in ('par', 'reg', 'ins')
              for f in ('span-row', 'span-col', 'span-both', 'transparent', 'header-below-first-row')]
     need += ['%s:%s-table-span-both-cells-to-the-right' % (t, p) for t in ('asm', 'html') for p in ('par', 'reg')]
+    need += ['skool:wrapalign-' + k for k in ('wrapped', 'multi', 'near', 'multi:extra1', 'multi:extra2', 'multi:extra3')]
+    need += ['skool:wrapalign-%s:%s' % (a, k) for a in ('multi', 'near') for k in ('list', 'table', 'udgtable')]
     need += ['asm:table', 'html:table', 'skool:nowrap', 'asm:overlong-line', 'skool:overlong-line', 'asm:exactly-W',
              'skool:exactly-W', 'asm:warned', 'asm:table-line']
     missing = [k for k in need if not n[k]]
     # the off-by-one classes must be present at (nearly) every width 40..200, not just somewhere
-    for cls in ('glued', 'pushed', 'asmi', 'asmc', 'skooli', 'skoolc', 'band', 'regfit'):
+    for cls in ('glued', 'pushed', 'asmi', 'asmc', 'skooli', 'skoolc', 'band', 'regfit', 'wamulti', 'wanear'):
         n['widths-covered:' + cls] = len(widths[cls])
-        # (a register table that fits is in 4 of 6 sweep documents, one in the band in every one)
-        if len(widths[cls]) < (90 if cls == 'regfit' else 150):
+        # (a register table that fits is in 4 of 6 sweep documents, one in the band in every one; a <wrapalign>
+        # block whose wrapped text begins 2+ blanks behind its '{' / '|' in 9 of 20)
+        if len(widths[cls]) < (90 if cls == 'regfit' else 40 if cls in ('wamulti', 'wanear') else 150):
             missing.append('%s at only %d of 161 widths' % (cls, len(widths[cls])))
     if missing and strict:
         raise MachineryError('C18 generator did not exercise: %s' % ', '.join(missing))
@@ -246,6 +256,13 @@ def run(tier):
     # entry pages judged whose register section has a prefix that begins with a letter other than I / O
     non_io_html = counts['html:reg-prefix:non-io']
     rep.extra['html_cases_with_non_io_register_prefix'] = non_io_html
+    # items / rows of <wrapalign> blocks that sna2skool wrapped with the continuation lines aligned to a text that
+    # begins two or more blanks behind its '{' / '|'
+    wa_multi = counts['skool:wrapalign-multi']
+    rep.extra['sna2skool_wrapalign_rows_wrapped_with_multi_space_cell_start'] = wa_multi
+    rep.extra['sna2skool_wrapalign_rows_of_those_breaking_within_the_extra_blanks_of_the_width'] = counts['skool:wrapalign-near']
+    if not wa_multi:
+        raise MachineryError('C18: sna2skool wrapped no <wrapalign> item / row whose text begins 2+ blanks behind its { or |')
     if not non_io_html:
         raise MachineryError('C18: no entry page with a register prefix other than I*/O* was judged on the HTML route')
     rep.drift = drift + len(bare_lf) + len(narrow)
@@ -289,7 +306,10 @@ def run(tier):
                 'with and without a :w column): every sweep document has two register tables whose widths are 2 of the '
                 '12 classes a-3..a+3, mid, t-1..t+2 (a = width left behind the register name, t = line width - 2) so that '
                 'each width sees the band (a, t], a list or a plain description ending at / near a, and one instruction '
-                'comment with a table of width a-3..a+3 of the comment field or a tight list')
+                'comment with a table of width a-3..a+3 of the comment field or a tight list; every sweep document and some '
+                'random ones also hold (description / start / mid-block / end comment in turn) a #LIST / #TABLE / #UDGTABLE block, '
+                '<wrapalign> in 3 of 5 (else <nowrap> / no flag), with an item or a cell (any column) whose text begins 1-4 blanks '
+                'behind its { or | and wraps tightly at the width left of a line beginning in that column')
     rep.assumptions = ['html.parser tokenises the entry pages (trusted projection)',
                        'tables: cells with =c<n>, =r<n>, both, =h (first row and elsewhere), =t in every place tables stand; spans stay '
                        'inside the grid, every row has a cell of its own and every column a cell of colspan 1; =t never in the '
@@ -300,7 +320,11 @@ def run(tier):
                        'ordered by (first column, colspan), cells of a group top to bottom in source order - read from character '
                        'positions in the ASM output, from the HTML table model (colspan/rowspan attributes) in the pages',
                        'word tokens carry braces only at their ends; control files use one directive per paragraph (no dot directives)',
-                       'a line is measured in characters; a tab indent counts 8 columns for the width rule, 1 for the warning']
+                       'a line is measured in characters; a tab indent counts 8 columns for the width rule, 1 for the warning',
+                       'control files: items / cells begin 1-4 blanks behind their { / | (also #UDGTABLE; the skool file for skool2asm / '
+                       'skool2html has single blanks and #TABLE); sna2skool keeps such blanks inside a line, so a break that the '
+                       'single-blank greedy reference would not make there is counted as drift; the <wrapalign> coverage counters are '
+                       'measured on the text sna2skool wrote (no verdict depends on them)']
     rmworkdir('c18')
     return rep.finish()
 
